@@ -64,13 +64,24 @@ Theorem C07_payload_burst :
 Proof. exact burst_rejected. Qed.
 Print Assumptions C07_payload_burst.
 
-(* PAYLOAD, two flipped bits at any distance, payload as transmitted of at most 131071 bytes (the maximum segment):
-   the register started at the polynomial does not return to 1 within 1 048 600 zero-input steps (kernel computation) *)
+(* PAYLOAD, a single flipped bit anywhere in payload || CRC-32 (named corollary of the burst theorem) *)
+Theorem C07_payload_single_flip :
+  forall c hd enc e ec rest a z,
+  (hd < 2 ^ (8 * N.of_nat (hlen_of c)))%N -> bytes_ok enc -> bytes_ok e -> length e = length enc -> (ec < 2 ^ 32)%N ->
+  payload_len c (header_of_data (is_some c) hd (checksum_koopman hd (hlen_of c))) = Z.of_nat (length enc) ->
+  error_bits e ec = zeros a ++ true :: zeros z ->
+  decode_segment c (write_header hd (hlen_of c) ++ xor_bytes enc e ++ write_crc32 (N.lxor (checksum_ieee enc) ec) ++ rest) = Err.
+Proof. exact single_flip_rejected. Qed.
+Print Assumptions C07_payload_single_flip.
+
+(* PAYLOAD, two flipped bits at any distance, for EVERY segment the decoder can be handed, uncompressed or compressed
+   ([enc] is the payload as transmitted: the compressed bytes when the segment is compressed): the length the decoder reads
+   comes from a 17-bit header field, so payload || CRC-32 never exceeds 131071*8+32 bits, and the register started at the
+   polynomial does not return to 1 within 1 048 600 zero-input steps (kernel computation).  No bound is assumed. *)
 Theorem C07_payload_double_flip :
   forall c hd enc e ec rest a m z,
   (hd < 2 ^ (8 * N.of_nat (hlen_of c)))%N -> bytes_ok enc -> bytes_ok e -> length e = length enc -> (ec < 2 ^ 32)%N ->
   payload_len c (header_of_data (is_some c) hd (checksum_koopman hd (hlen_of c))) = Z.of_nat (length enc) ->
-  Z.of_nat (length enc) <= 131071 ->
   error_bits e ec = zeros a ++ true :: zeros m ++ true :: zeros z ->
   decode_segment c (write_header hd (hlen_of c) ++ xor_bytes enc e ++ write_crc32 (N.lxor (checksum_ieee enc) ec) ++ rest) = Err.
 Proof. exact double_flip_rejected. Qed.
@@ -85,6 +96,19 @@ Theorem C07_premises_met_by_encoder :
   payload_len None (header_of_data false hd (checksum_koopman hd (hlen_of None))) = Z.of_nat (length p).
 Proof. exact plain_segment_shape. Qed.
 Print Assumptions C07_premises_met_by_encoder.
+
+(* ... and of every segment emitted with a compressor, in both encoder branches (compressed bytes transmitted / fallback) *)
+Theorem C07_premises_met_by_encoder_compressed :
+  forall (k : compressor) sc (p cp : list Z),
+  Z.of_nat (length p) <= 131071 -> (p <> [] -> cp <> []) ->
+  let fits := Z.of_nat (length cp) <=? Z.of_nat (length p) in
+  let hd := if fits then header_data_compressed sc (Z.of_nat (length p)) (Z.of_nat (length cp))
+            else header_data_compressed sc 0 (Z.of_nat (length p)) in
+  let transmitted := if fits then cp else p in
+  (hd < 2 ^ (8 * N.of_nat (hlen_of (Some k))))%N /\
+  payload_len (Some k) (header_of_data true hd (checksum_koopman hd (hlen_of (Some k)))) = Z.of_nat (length transmitted).
+Proof. exact compressed_segment_shape. Qed.
+Print Assumptions C07_premises_met_by_encoder_compressed.
 
 (* non-vacuity: concrete error patterns of each shape, and the corrupted encodings really differ from the intact ones *)
 Example C07_nonvacuous :
